@@ -369,11 +369,9 @@ func readRunes(r io.RuneReader) ([]rune, []int, error) {
 	offsets := []int{0}
 	for {
 		ch, size, err := r.ReadRune()
-		if err == io.EOF {
-			return text, offsets, nil
-		}
 		if err != nil {
-			return nil, nil, err
+			// like regexp's reader input: any read error, not only io.EOF, is the end of the text
+			return text, offsets, nil
 		}
 		text = append(text, ch)
 		offsets = append(offsets, offsets[len(offsets)-1]+size)
